@@ -283,6 +283,20 @@ def run_fol_program(prog):
                 r = o.downward(index=idx) if idx is not None else o.downward()
                 lines.append(f"fdown {op[1]} {'-' if idx is None else idx}" if len(ex) == 1 else f"fpass down {ids(ex)}")
                 out.append("r " + q(impl.amount(r)))
+            elif op[0] in ("upg", "downg"):
+                # node-level call restricted to given groundings (honoured by join-free connectives only)
+                o = kb.obj[op[1]]
+                gs = [tuple(g) for g in op[-1]]
+                names = {kb.cname(g) for g in gs}
+                gtxts = ";".join(gtxt(g) for g in gs)
+                if op[0] == "upg":
+                    r = o.upward(groundings=names)
+                    lines.append(f"fupg {op[1]} {gtxts}")
+                else:
+                    idx = op[2]
+                    r = o.downward(index=idx, groundings=names) if idx is not None else o.downward(groundings=names)
+                    lines.append(f"fdowng {op[1]} {'-' if idx is None else idx} {gtxts}")
+                out.append("r " + q(impl.amount(r)))
             elif op[0] in ("passup", "passdown"):
                 d = "up" if op[0] == "passup" else "down"
                 steps, r = (kb.model.upward() if d == "up" else kb.model.downward())
@@ -428,6 +442,7 @@ def gen_fol_kb(rng, n_preds=(2, 4), n_conn=(1, 3), max_arity=3, quant=False, wor
                 n["b"] = rng.choice([ONE, Fr(1, 2), Fr(3, 2)])
             if worlds and rng.random() < 0.2:
                 n["world"] = rng.choice(["closed", "axiom"])
+        n["nvars"] = len(uvars)
         nodes.append(n)
         info[nid] = (kind, len(uvars), list(uvars))
         nid += 1
@@ -513,12 +528,16 @@ def gen_facts(rng, desc, n_consts=(2, 4), density=0.6, classical_p=0.5, crossed_
     return facts, nc
 
 
-def gen_fol_ops(rng, desc, n_ops=(2, 10), mid_facts=0.0, n_consts=4):
+def gen_fol_ops(rng, desc, n_ops=(2, 10), mid_facts=0.0, n_consts=4, restrict_p=0.0):
     """mid_facts: share of ops that assert a further fact between inference calls (data arriving over time: tables and
     quantifier groups then grow in an order that is not the sorted one)"""
     conn = [n["id"] for n in desc["nodes"]]
     ar = {n["id"]: len(n["ops"]) for n in desc["nodes"]}
     kinds = {n["id"]: n["kind"] for n in desc["nodes"]}
+    nvars = {n["id"]: n.get("nvars") for n in desc["nodes"]}
+    homog = [n["id"] for n in desc["nodes"] if n["kind"] in ("and", "or", "implies") and n.get("nvars")
+             and len({tuple(vs) if vs is not None else None for _, vs in n["ops"]}) == 1
+             and all(vs is not None for _, vs in n["ops"])]
     ops = []
     for _ in range(rng.randint(*n_ops)):
         r = rng.random()
@@ -529,13 +548,23 @@ def gen_fol_ops(rng, desc, n_ops=(2, 10), mid_facts=0.0, n_consts=4):
             continue
         if r < 0.55 and conn:
             i = rng.choice(conn)
+            restricted = None
+            if restrict_p and homog and rng.random() < 0.6:
+                i = rng.choice(homog)          # the restriction is honoured by join-free connectives: aim at them
+            if restrict_p and kinds[i] in ("and", "or", "implies") and nvars.get(i) and rng.random() < restrict_p:
+                # upward/downward(groundings={...}): one to three groundings, known or not
+                restricted = []
+                for _ in range(rng.randint(1, 3)):
+                    g = [rng.randrange(n_consts + 1) for _ in range(nvars[i])]
+                    if g not in restricted:
+                        restricted.append(g)
             if rng.random() < 0.5:
-                ops.append(("up", i))
+                ops.append(("up", i) if restricted is None else ("upg", i, restricted))
             else:
                 idx = None
                 if kinds[i] in ("and", "or", "implies") and rng.random() < 0.25:
                     idx = rng.randrange(ar[i])
-                ops.append(("down", i, idx))
+                ops.append(("down", i, idx) if restricted is None else ("downg", i, idx, restricted))
         elif r < 0.7:
             ops.append(("passup",))
         elif r < 0.85:
